@@ -331,7 +331,7 @@ def gen(rng, tier):
         cases.append(case)
     # explicit limits above MAX_COMMAND_LENGTH with long words / long spans between newlines: nothing may be
     # cut at the transport
-    for _ in range(40 if tier == "quick" else 400):
+    for _ in range(30 if tier == "quick" else 300):
         typ, user = rng.choice(["PRIVMSG", "NOTICE"]), rng.choice(["u", "#chan"])
         length = rng.choice([513, 600, 700, 1500, 512, 511])
         n = rng.randrange(480, 1700)
@@ -344,7 +344,7 @@ def gen(rng, tier):
         cases.append({"kind": "send", "type": typ, "user": user, "message": msg, "length": length})
     # histories: several calls on ONE client with varying length (None then explicit, explicit then None,
     # different explicit values), same and different targets; each call must behave as it does alone
-    for _ in range(120 if tier == "quick" else 1500):
+    for _ in range(100 if tier == "quick" else 1200):
         users = rng.sample(["u", "#chan", "nick", "foo"], 2)
         calls = []
         for _ in range(rng.randrange(2, 5)):
@@ -478,7 +478,9 @@ SPEC = Spec(
          "msg/notice to 5 targets with messages of 0..13 words from an 18-word list (long words, multi-byte, astral, "
          "DLE, NUL, CTCP) joined by 14 separators (spaces, LF, CR, CRLF, TAB, Unicode spaces, hyphen), limits at "
          "len(fmt)+2 -1..+3, None (NICKLEN 1..330) and random 14..140; plain-ASCII messages with widths around word "
-         "boundaries. non-trivial = quoting of a special character / a message split into >= 2 lines",
+         "boundaries; bare-CR / TAB texts without LF at the limit; explicit limits 511..1500 with spans of 480..1700 "
+         "characters; histories of 2..4 msg/notice calls on ONE client with length None / explicit / too small, same "
+         "and different targets (each call must behave as it does alone). non-trivial = quoting of a special character / a message split into >= 2 lines",
     trusted=[
         "translator translate/replace_chain.py + translate/c43.py (fail-closed; validated by this correspondence run)",
         "coq/Lib/PyStr.v py_replace and coq/Lib/CodecsText.v re_sub_escape (re.sub of <Q>. with DOTALL and the "
